@@ -27,6 +27,7 @@ PROP = {
              ("TestVFC13Valid", (300, 1000)),
              ("TestVFC13Shape", (600, 2500)),
              ("TestVFC13Bytes", (1200, 4000)),
+             ("TestVFC13BigUnsigned", (200, 600)),
              ("TestVFC13Auth", (30, 60), {"shards": (1, 8), "shrinktime": "5s"}),
          ],
      "plain": ["TestVFC13RegressNullObject", "TestVFC13RegressNullDocument", "TestVFC13Golden"]},
